@@ -20,27 +20,6 @@ theorem KeyEq.symm {t t' : Table ε} (h : KeyEq t t') : KeyEq t' t := fun ph pa 
 theorem KeyEq.trans {t t' t'' : Table ε} (h : KeyEq t t') (h' : KeyEq t' t'') : KeyEq t t'' :=
   fun ph pa id => (h ph pa id).trans (h' ph pa id)
 
-/-- **`_check_against_runs`, one key**: what is kept under the key and which announced records name it are
-those of the single run stored under it. -/
-theorem checkAgainstRuns_perkey (e : ε) (t : Table ε) (h : TableWF t) (ph pa id : String) :
-    (checkAgainstRuns e t).1.runAt ph pa id = (contribOf e ph (t.runAt ph pa id)).keep.head? ∧
-    (checkAgainstRuns e t).2.1.filter (keyMatch ph pa id) = (contribOf e ph (t.runAt ph pa id)).hc ∧
-    (checkAgainstRuns e t).2.2.1.filter (keyMatch ph pa id) = (contribOf e ph (t.runAt ph pa id)).hi ∧
-    (checkAgainstRuns e t).2.2.2.filter (keyMatch ph pa id) = (contribOf e ph (t.runAt ph pa id)).upd := by
-  obtain ⟨hl1, hl2, hl3⟩ := checkAgainstRuns_lists e t
-  have f1 := buckets_filter_key t h ph pa id (fun bph brs => (procBucket e bph brs).hc) (by simp [procBucket_nil])
-    (fun bph bpa brs hn => (hc_hi_keys e bph bpa brs hn).1)
-  have f2 := buckets_filter_key t h ph pa id (fun bph brs => (procBucket e bph brs).hi) (by simp [procBucket_nil])
-    (fun bph bpa brs hn => (hc_hi_keys e bph bpa brs hn).2)
-  have f3 := buckets_filter_key t h ph pa id (fun bph brs => (procBucket e bph brs).upd) (by simp [procBucket_nil])
-    (fun bph bpa brs hn => upd_keys e bph bpa brs hn)
-  obtain ⟨x1, x2, x3, x4⟩ := procBucket_exact e ph pa id (t.runsFrom ph pa) (h.ids ph pa) (h.names ph pa)
-  refine ⟨?_, ?_, ?_, ?_⟩
-  · rw [runAt_def, runsFrom_checkAgainstRuns, x1, runAt_def]
-  · rw [hl1, f1, x3, runAt_def]
-  · rw [hl2, f2, x4, runAt_def]
-  · rw [hl3, f3, x2, runAt_def]
-
 /-- `_check_against_runs` respects key-wise equality. -/
 theorem checkAgainstRuns_sim (e : ε) (t t' : Table ε) (h : TableWF t) (h' : TableWF t') (hk : KeyEq t t') :
     KeyEq (checkAgainstRuns e t).1 (checkAgainstRuns e t').1 ∧
